@@ -146,7 +146,7 @@ def run(ctx):
                 n += 1
                 if ev[4] is not None:
                     ctx.ob("R3", "unimported-chain|%s" % ev[1].key(), ev[1].loc(), "module chain %s uses %s, which is not imported and not in the static import closure" % (".".join(ev[2]), ev[4]), False)
-    ctx.ob("R3", "chains", site.loc(), "%d module-chain evaluations in verify_gpg_signature, all inside the import closure" % n, not any(o.rule == "R3" and not o.ok for o in ctx.obligations))
+    ctx.ob("R3", "chains", site.loc(), "%d module-chain evaluations in verify_gpg_signature, all inside the import closure" % n, not ctx.failed("R3"))
 
     # ---- R4 transcription
     _transcription(ctx)
@@ -209,6 +209,12 @@ def _transcription(ctx):
         stores = [ev for ev in evs if ev[0] == "store" and _root(ev[2]) == rs]
         if len(stores) != 1 or stores[0][2][1] != SubC(rs, "signatures"):
             ok_all, why = False, "not exactly one store into root_signable['signatures']"
+            break
+        from sa.effects import all_events
+
+        others = [ev for ev in all_events(p.events) if ev[0] in ("store", "del", "mutcall") and _root(ev[2]) == rs and ev is not stores[0]]
+        if others:
+            ok_all, why = False, "besides filing its own entry it changes the envelope (%s %s at %s): entries of other keyholders do not survive" % (others[0][0], show(others[0][2])[:60], others[0][1].loc())
             break
         keyterm, val = stores[0][2][2], stores[0][3]
         calls = [ev for ev in evs if ev[0] == "call" and ev[2] == "repo:root_signing.sign_via_gpg" and ev[5][0] == "ok"]
